@@ -92,7 +92,7 @@ func ruleCfgAddr(c *Ctx, rule string) {
 				return
 			}
 			nS++
-			al, ok := ex.Resolve(st, ret.Results[0]).(*ssa.Alloc)
+			al, ok := ex.ResolveDeep(st, ret.Results[0]).(*ssa.Alloc)
 			if !ok {
 				addb("success return does not return a fresh net.UDPAddr")
 				return
@@ -220,7 +220,7 @@ func ruleCfgListen(c *Ctx, rule string) {
 		}
 		// the address handed over is an element of the configured list (or of the one-element alias list)
 		a := ex.Canon(st, glaCall.Call.Args[1]).S
-		if !regexp.MustCompile(`\[\(φ(?:[\w$]+·)?t\d+ \+ 1\)\]$`).MatchString(a) {
+		if !regexp.MustCompile(`\[` + idxRe + `\]$`).MatchString(a) {
 			addb("getListenAddress is not applied to the ranged element of the address list: " + shortName(a))
 		}
 		if ex.Canon(st, glaCall.Call.Args[2]).S != "$1" {
